@@ -38,7 +38,11 @@ let decl_of_case (w : string list) : decl * odecl list =
           let short = (if short = "-" then None else (match str_of_hex short with [c] -> Some c | _ -> raise Bad_case)) in
           let flag = (flag = "1") in
           let rest s = String.sub s 1 (String.length s - 1) in
-          if k = "r" then begin
+          (* a toggle default 0|1 (default_value(bool)) or i<k> (default_value(int): enabled iff k <> 0); n = not set *)
+          let tdefault d0 = if dflt = "0" then false else if dflt = "1" then true
+            else if dflt.[0] = 'i' then int_of_string (rest dflt) <> 0 else d0 in
+          (* k: the same as r, through the reference kept from the first request *)
+          if k = "r" || k = "k" then begin
             let r = (try Hashtbl.find by_name (str_of_hex name) with Not_found -> raise Bad_case) in
             let upd b = { b with b_short = (match short with Some _ -> short | None -> b.b_short);
                                  b_env = (if env = "-" then b.b_env else str_of_hex env);
@@ -46,14 +50,14 @@ let decl_of_case (w : string list) : decl * odecl list =
             r := (match !r with
                 | DOption (b, d0, opt) -> DOption (upd b, (if dflt.[0] = 's' then Some (str_of_hex (rest dflt)) else d0), opt || flag)
                 | DMulti (b, d0, opt) -> DMulti (upd b, (if dflt.[0] = 'l' then Some (strs_of_wire (rest dflt)) else d0), opt || flag)
-                | DToggle (b, rev, d0) -> DToggle (upd b, rev || flag, (if dflt = "0" then false else if dflt = "1" then true else d0)))
+                | DToggle (b, rev, d0) -> DToggle (upd b, rev || flag, tdefault d0))
           end else begin
             let b = { b_name = str_of_hex name; b_short = short;
                       b_descr = str_of_hex descr; b_env = str_of_hex env; b_metavar = str_of_hex metavar } in
             let od = match k with
               | "o" -> DOption (b, (if dflt.[0] = 's' then Some (str_of_hex (rest dflt)) else None), flag)
               | "m" -> DMulti (b, (if dflt.[0] = 'l' then Some (strs_of_wire (rest dflt)) else None), flag)
-              | "t" -> DToggle (b, flag, dflt = "1")
+              | "t" -> DToggle (b, flag, tdefault false)
               | _ -> raise Bad_case in
             let r = ref od in
             Hashtbl.replace by_name b.b_name r;
